@@ -3,17 +3,6 @@ import json
 from vlib import *
 import schedengine as se
 
-SPECIALS = [
-    # the known finding's witness: 1 healthy, 2 failed (one restorable), 1 waiting; quorum 3
-    dict(tick=100, defs=[(1, 7, [1, 2, 3])],
-         view=[dict(id=1, cci=5, reps=[(1, 11, 100, 10), (2, 12, 10, 10), (3, 13, 10, 10), (4, 14, 0, 90)])],
-         hosts=[dict(addr=11, region=1, tick=100, plog=[], shards=[1]), dict(addr=12, region=1, tick=100, plog=[(1, 2)], shards=[1]),
-                dict(addr=13, region=1, tick=10, plog=[], shards=[1]), dict(addr=14, region=1, tick=100, plog=[], shards=[1]),
-                dict(addr=15, region=1, tick=100, plog=[], shards=[])],
-         kill=[(1, 9, 15)], ints=[0], u64s=[77], json=1, tag="special:finding-witness"),
-]
-
-
 def run(ck):
     ck.cov["rule"] = ("one-shard contexts: every multiset of <=5 member kinds out of {healthy, healthy exactly ttl ago, waiting, never reported+never announced "
                       "(log present), failed x NodeHost {unknown, live+log, live no log, live+log of another replica / another shard, silent exactly ttl "
@@ -21,17 +10,21 @@ def run(ck):
                       "hosting / unknown-region) x 2 region patterns x defined size in {members-1, members} (quick: the 5-member part is sampled); "
                       "plus PRNG contexts with 1..4 shards sharing 3..8 NodeHosts, kill lists, undefined shards; scripted random source. "
                       "Non-trivial = the round produced a request, an error or a panic; distinct by md5 of the context line.")
+    import time
+    t0 = time.time()
     proofs_ok = ck.proofs(["theories/SchedRun.vo"])
+    t1 = time.time()
     eng = se.Engine(ck)
     if not eng.build():
         return
+    ck.cov["timing"] = {"proofs_s": round(t1 - t0, 1), "go_build_s": round(time.time() - t1, 1)}
     quick = ck.tier == "quick"
     if ck.replay:
         ctxs = [se.normalize_ctx(json.load(open(ck.replay))["context"])]
         full = 0
     else:
-        ctxs = se.load_corpus("C12") + [se.normalize_ctx(c) for c in SPECIALS]
-        one, full = se.gen_one_shard(ck, eng.ttl, eng.step, 5, 11000 if quick else 10 ** 9)
+        ctxs = se.load_corpus("C12")
+        one, full = se.gen_one_shard(ck, eng.ttl, eng.step, 5, 10000 if quick else 10 ** 9)
         ctxs += one
         ctxs += [se.gen_random_ctx(ck.rng, eng.ttl, eng.step) for _ in range(1500 if quick else 30000)]
     open_ids = {f["id"] for f in ck.open_findings()}
